@@ -47,6 +47,19 @@ func VerifC15Remote() {
 		ph.Objects = append(ph.Objects, vNamedCM("o"+strconv.Itoa(k)))
 	}
 	os.Spec.Phases = []corev1alpha1.ObjectSetTemplatePhase{ph}
+	// what an earlier pass recorded in status.remotePhases: nothing, this phase object, or a predecessor of the same
+	// name that a third party deleted (the phase object was re-created since and has a new UID)
+	recorded := verifrt.IntRange("status.remotePhases", 0, 2)
+	otherRecorded := verifrt.Bool("status.remotePhases.other")
+	if otherRecorded {
+		os.Status.RemotePhases = append(os.Status.RemotePhases, corev1alpha1.RemotePhaseReference{Name: "me-q", UID: "uid-q"})
+	}
+	switch recorded {
+	case 1:
+		os.Status.RemotePhases = append(os.Status.RemotePhases, corev1alpha1.RemotePhaseReference{Name: "me-p", UID: "uid-phase"})
+	case 2:
+		os.Status.RemotePhases = append(os.Status.RemotePhases, corev1alpha1.RemotePhaseReference{Name: "me-p", UID: "uid-phase-deleted"})
+	}
 
 	exists := verifrt.Bool("phaseObject.exists")
 	var gen, og int64
@@ -113,6 +126,21 @@ func VerifC15Remote() {
 	}
 	verifrt.Assert(len(creates) == 0, "C15/no-second-phase-object")
 	verifrt.Assert(err == nil, "C15/remote-reconcile-succeeds")
+	// the ObjectSet records the phase object it delegates to, by its current UID (adoption from a previous revision's
+	// delegated phase is decided on this record), and keeps the records of its other phases
+	nMine, nOther := 0, 0
+	for _, ref := range os.Status.RemotePhases {
+		switch ref.Name {
+		case "me-p":
+			nMine++
+			verifrt.Assert(ref.UID == "uid-phase", "C15/remote-phase-recorded-with-current-uid")
+		case "me-q":
+			nOther++
+			verifrt.Assert(ref.UID == "uid-q", "C15/other-remote-phase-records-kept")
+		}
+	}
+	verifrt.Assert(nMine == 1, "C15/remote-phase-recorded-exactly-once")
+	verifrt.Assert((nOther == 1) == otherRecorded && nOther <= 1, "C15/other-remote-phase-records-kept")
 	// trust only status for the current generation - the generation after this pass's own spec patch, if any
 	currentGen := gen
 	if phasePaused != osPaused {
